@@ -753,13 +753,17 @@ package moss
 // LowerLevelUpdate; on an error nothing is changed (the same section is read
 // again); on success, in one critical section, the base slot is emptied, the
 // section moves to the clean slot only when CachePersisted, and the result
-// becomes the lower level; the cached snapshot is dropped.
+// becomes the lower level; the cached snapshot is dropped.  The persister only
+// ever blocks on its condition variable while the base slot is empty: a
+// section that still waits to be persisted (also after a failed attempt) is
+// offered again, not slept on.
 //@ func (m *collection) runPersister()
-//@   props C13 C18 C16 C01 C03 C04 C15 C20
+//@   props C13 C18 C16 C01 C03 C04 C15 C20 C06
 //@   attr obligations lock-inv region guarded lock inv-entry inv-preserve
 //@   requires @notReadOnly !readOnlyMode()
 //@   requires m != nil && m.options != nil && !held(m.m) && m.stats != nil
 //@   modifies *
+//@   wait: @onlyWhenIdle m.stackDirtyBase == nil
 //@   unlock 2: @readOnly m.stackDirtyBase == atAcquire(m.stackDirtyBase) && m.stackDirtyMid == atAcquire(m.stackDirtyMid) && m.stackDirtyTop == atAcquire(m.stackDirtyTop) &&
 //@       m.stackClean == atAcquire(m.stackClean) && m.lowerLevelSnapshot == atAcquire(m.lowerLevelSnapshot) && m.latestSnapshot == atAcquire(m.latestSnapshot)
 //@   unlock 3: @baseEmptied m.stackDirtyBase == nil && m.latestSnapshot == nil
